@@ -643,7 +643,35 @@ def install(lib):
     lib.ns["networkx"] = NS("networkx", {})
     lib.ns["supergraph"] = NS("supergraph", {})
     lib.ns["traceback"] = NS("traceback", {})
-    lib.ns["concurrent.futures"] = NS("concurrent.futures", {"Future": TypeTag("Future"), "CancelledError": TypeTag("CancelledError"),
+    def future_new(ex):
+        used(ex, "concurrent.futures.Future: set_result stores a value, result() returns it or raises CancelledError if cancelled (blocking is not modelled)")
+        return Rec("Future", dict(_result=None, _done=False, _cancelled=False), module=None)
+
+    def fut_set_result(ex, o):
+        def f(ex_, v):
+            o.f["_result"], o.f["_done"] = v, True
+        return f
+
+    def fut_cancel(ex, o):
+        def f(ex_):
+            if not o.f["_done"]:
+                o.f["_cancelled"] = True
+            return o.f["_cancelled"]
+        return f
+
+    def fut_result(ex, o):
+        def f(ex_, timeout=None):
+            c = o.f["_cancelled"]
+            if ex_.decide(ex_.truth(c)):
+                raise RaiseEx("CancelledError")
+            return o.f["_result"]
+        return f
+
+    lib.rec_methods[("Future", "set_result")] = fut_set_result
+    lib.rec_methods[("Future", "cancel")] = fut_cancel
+    lib.rec_methods[("Future", "result")] = fut_result
+    lib.rec_methods[("Future", "add_done_callback")] = lambda ex, o: (lambda ex_, cb: None)
+    lib.ns["concurrent.futures"] = NS("concurrent.futures", {"Future": CallableTag("Future", future_new), "CancelledError": TypeTag("CancelledError"),
                                                                 "ThreadPoolExecutor": TypeTag("ThreadPoolExecutor")})
     lib.ns["threading"] = NS("threading", {})
     lib.ns["math"] = NS("math", {"ceil": lambda ex, x: b_int(ex, np_ceil(ex, x)), "floor": lambda ex, x: b_int(ex, np_floor(ex, x)), "inf": _INF})
